@@ -164,6 +164,64 @@ Theorem C20_not_a_directory : forall v kind reuse dmeta entries,
 Proof. exact prepare_not_directory. Qed.
 Print Assumptions C20_not_a_directory.
 
+(* ---- which results are skipped, which are converted (the guard `if m_results is None`) ---- *)
+
+(* a value of a record's results dictionary that cannot be converted - of an invalid type (anything that is
+   neither None nor a ModuleResults), or a ModuleResults whose to_json raises, or one whose payload holds
+   something json.dumps cannot encode - at ANY position of ANY record, and WHATEVER its truthiness (ms_truth is
+   not mentioned: an empty results object, a results object whose __bool__ says False, an empty dict left over
+   from a reused run are not excused): write_to_file ends in an error and the target is what it was *)
+Theorem C20_failing_result_protects_file_whatever_its_truthiness :
+  forall records results tl hk w w' res i r ms m,
+  write_to_file records results tl hk w = (w', res) ->
+  nth_error records i = Some r -> nth_error results i = Some ms -> In m ms ->
+  ms_kind m <> 0 ->
+  (ms_kind m <> 2 \/ ms_fault m <> 0 \/ late_faulty (ms_late m) = true) ->
+  w_file w' = w_file w /\ exists k, res = Err k.
+Proof. exact failing_result_protects_file. Qed.
+Print Assumptions C20_failing_result_protects_file_whatever_its_truthiness.
+
+(* a successful write_to_file: the text holds one entry per record and in it exactly one module entry for every
+   value that is not None (keyed by its position, carrying what its to_json returned: payload, object for
+   json.dumps, shape - also when that is None or {}), and no other entry: only None is skipped *)
+Theorem C20_written_modules_exactly_the_non_none_results : forall records results tl hk w w',
+  write_to_file records results tl hk w = (w', Ok tt) ->
+  exists d, w_file w' = CNew d /\ length d = length records /\
+    forall i r ms, nth_error records i = Some r -> nth_error results i = Some ms ->
+      exists mods, nth_error d i = Some (r_orig r, mods) /\
+        forall e, In e mods <->
+                  exists j m, nth_error ms j = Some m /\ ms_kind m <> 0 /\
+                              e = mkMJ (Z.of_nat j) (ms_val m) (ms_late m) (ms_ret m).
+Proof. exact written_exactly_non_none. Qed.
+Print Assumptions C20_written_modules_exactly_the_non_none_results.
+
+(* the truthiness of the values is never consulted: replacing it by anything (f) changes nothing - not the
+   outcome, not the target, not the log, not the trace - in write_to_file, in dump_records and in the whole run.
+   (What IS consulted is whether evaluating it raises, ms_tfault: the debug line of dump_records evaluates
+   bool(value) of every value of a record before converting its first module; see C20_ex_truthiness.) *)
+Theorem C20_truthiness_irrelevant : forall f records results tl hk w,
+  write_to_file records (retruth f results) tl hk w = write_to_file records results tl hk w.
+Proof. exact write_truth_irrelevant. Qed.
+Print Assumptions C20_truthiness_irrelevant.
+
+Theorem C20_truthiness_irrelevant_dump_records : forall f records results hk w,
+  dump_records records (retruth f results) hk w = dump_records records results hk w.
+Proof. exact dump_truth_irrelevant. Qed.
+Print Assumptions C20_truthiness_irrelevant_dump_records.
+
+Theorem C20_truthiness_irrelevant_pipeline : forall f pl v kind reuse dmeta entries records results hk w,
+  run_antismash pl v kind reuse dmeta entries records (retruth f results) hk w =
+  run_antismash pl v kind reuse dmeta entries records results hk w.
+Proof. exact run_truth_irrelevant. Qed.
+Print Assumptions C20_truthiness_irrelevant_pipeline.
+
+(* the failures the run-time specification (function ids 11, 12, 14) insists on are failures of the model, so
+   the theorems above speak about every case on which the specification demands an error *)
+Theorem C20_spec_failures_are_model_failures : forall records results tl,
+  core_fails records results tl = true -> conversion_fails records results tl = true.
+Proof. exact core_fails_conversion_fails. Qed.
+Print Assumptions C20_spec_failures_are_model_failures.
+
 (* ---- the pipeline: main._run_antismash ---- *)
 
 (* order of the run, for every plan of stage faults, every directory and every conversion plan: the new
@@ -227,13 +285,25 @@ Theorem C20_pipeline_foreign_directory_untouched :
 Proof. exact run_antismash_foreign. Qed.
 Print Assumptions C20_pipeline_foreign_directory_untouched.
 
+(* the limit of the guarantee on the side of the directory, stated rather than hidden: a run reusing the results
+   in its output directory whose JSON conversion fails keeps the previous JSON (first clause) and reports the
+   failure, but prepare_output_directory has already removed the previous region GenBank files.  The property
+   speaks about the results file; this is the behaviour of the code for the files it does not speak about *)
+Theorem C20_failed_reuse_run_loses_region_files :
+  exists pl v entries records results w' r es,
+    run_antismash pl v 1 true false entries records results 0 (initial_world 0) = (w', r, 1, es) /\
+    conversion_fails records results 0 = true /\ w_file w' = COld /\ r = Err E_Value /\
+    exists e, In e entries /\ en_region e = true /\ ~ In e es.
+Proof. exact failed_reuse_run_loses_region_files. Qed.
+Print Assumptions C20_failed_reuse_run_loses_region_files.
+
 (* ---- non-vacuity ---- *)
 
 (* two records, three results; the second record's gather_record_areas raises ValueError: the plan counts
    as failing, and the machine ends in that error with the old file in place after five conversion events *)
 Example C20_ex_fault :
   let records := [mkR 0 0 0 0 true; mkR 0 0 1 0 false] in
-  let results := [[mkM 2 0 11 0; mkM 0 0 0 0]; [mkM 2 0 12 1]] in
+  let results := [[mkM 2 0 11 0 0 0 0; mkM 0 0 0 0 0 0 0]; [mkM 2 0 12 1 0 0 0]] in
   conversion_fails records results 0 = true /\
   write_to_file records results 0 0 (initial_world 0) =
   (mkW COld 0 [mkEv 1 0 0 1; mkEv 2 0 0 1; mkEv 3 0 0 1; mkEv 4 0 0 1; mkEv 5 0 0 1;
@@ -243,7 +313,7 @@ Proof. split; vm_compute; reflexivity. Qed.
 (* an unserialisable object met by json.dumps in the last module: TypeError, logged once, old file kept *)
 Example C20_ex_late_fault :
   let records := [mkR 0 0 0 0 false] in
-  let results := [[mkM 2 0 11 1; mkM 2 0 12 2]] in
+  let results := [[mkM 2 0 11 1 0 0 0; mkM 2 0 12 2 0 0 0]] in
   conversion_fails records results 0 = true /\
   exists t, write_to_file records results 0 0 (initial_world 0) = (mkW COld 1 t, Err E_Type).
 Proof. split; [vm_compute; reflexivity|]. eexists. vm_compute. reflexivity. Qed.
@@ -251,10 +321,10 @@ Proof. split; [vm_compute; reflexivity|]. eexists. vm_compute. reflexivity. Qed.
 (* no fault: the file is replaced, open and write come last *)
 Example C20_ex_success :
   let records := [mkR 0 0 0 0 true] in
-  let results := [[mkM 2 0 11 1; mkM 0 0 0 0; mkM 2 0 12 0]] in
+  let results := [[mkM 2 0 11 1 0 0 0; mkM 0 0 0 0 0 0 0; mkM 2 0 12 0 0 0 0]] in
   conversion_fails records results 1 = false /\
   write_to_file records results 1 0 (initial_world 0) =
-  (mkW (CNew [(true, [mkMJ 0 11 1; mkMJ 2 12 0])]) 0
+  (mkW (CNew [(true, [mkMJ 0 11 1 0; mkMJ 2 12 0 0])]) 0
        [mkEv 1 0 0 1; mkEv 2 0 0 1; mkEv 3 0 0 1; mkEv 4 0 0 1; mkEv 5 0 0 1; mkEv 5 0 2 1;
         mkEv 6 0 0 1; mkEv 7 0 0 1; mkEv 8 0 0 1; mkEv 9 0 0 2], Ok tt).
 Proof. split; vm_compute; reflexivity. Qed.
@@ -328,7 +398,7 @@ Qed.
    C20_io_failure_after_truncation_loses_file; open and write are the last two events *)
 Example C20_ex_io_failure :
   let records := [mkR 0 0 0 0 false] in
-  let results := [[mkM 2 0 11 0]] in
+  let results := [[mkM 2 0 11 0 0 0 0]] in
   conversion_fails records results 0 = false /\
   write_to_file records results 0 5 (initial_world 5) =
   (mkW CEmpty 0 [mkEv 1 0 0 1; mkEv 2 0 0 1; mkEv 3 0 0 1; mkEv 4 0 0 1; mkEv 5 0 0 1;
@@ -342,9 +412,9 @@ Example C20_ex_pipeline_success :
   let pl := mkPP 0 true 0 0 [mkRP false 0 true 0; mkRP false 0 false 0] 0 0 false in
   let entries := [mkE 0 0 true false false false; mkE 1 1 true false false true; mkE 2 2 true false false false] in
   let records := [mkR 0 0 0 0 false; mkR 0 0 0 0 false] in
-  let results := [[mkM 2 0 11 0]; []] in
+  let results := [[mkM 2 0 11 0 0 0 0]; []] in
   run_antismash pl env_nolog 1 true false entries records results 0 (initial_world 0) =
-  (mkW (CNew [(false, [mkMJ 0 11 0]); (false, [])]) 0
+  (mkW (CNew [(false, [mkMJ 0 11 0 0]); (false, [])]) 0
        [mkEv 20 0 0 1; mkEv 21 0 0 1; mkEv 22 0 0 1; mkEv 23 0 0 1; mkEv 24 0 0 1;
         mkEv 25 0 0 1; mkEv 26 0 0 1; mkEv 25 1 0 1;
         mkEv 1 0 0 1; mkEv 2 0 0 1; mkEv 3 0 0 1; mkEv 4 0 0 1; mkEv 5 0 0 1;
@@ -359,7 +429,7 @@ Example C20_ex_pipeline_refused :
   let pl := mkPP 0 true 0 0 [mkRP false 0 true 0] 0 0 false in
   let entries := [mkE 0 0 true false false false; mkE 1 1 true false false true; mkE 2 2 true false false false] in
   existsb (foreign env_nolog) entries = true /\
-  run_antismash pl env_nolog 1 false false entries [mkR 0 0 0 0 false] [[mkM 2 0 11 0]] 0 (initial_world 0) =
+  run_antismash pl env_nolog 1 false false entries [mkR 0 0 0 0 false] [[mkM 2 0 11 0 0 0 0]] 0 (initial_world 0) =
   (mkW COld 0 [mkEv 20 0 0 1; mkEv 21 0 0 1; mkEv 22 0 0 1; mkEv 23 0 0 1], Err E_Input, 1, entries).
 Proof. split; [reflexivity|]. vm_compute. reflexivity. Qed.
 
@@ -369,7 +439,7 @@ Proof. split; [reflexivity|]. vm_compute. reflexivity. Qed.
 Example C20_ex_pipeline_conversion_fault :
   let pl := mkPP 0 true 0 0 [mkRP false 0 true 0; mkRP true 0 false 0] 0 0 true in
   let records := [mkR 0 0 0 0 false; mkR 0 0 0 0 false] in
-  let results := [[mkM 2 0 11 0]; [mkM 2 4 12 0]] in
+  let results := [[mkM 2 0 11 0 0 0 0]; [mkM 2 4 12 0 0 0 0]] in
   conversion_fails records results 0 = true /\
   run_antismash pl env_nolog 1 true false [mkE 0 0 true false false false] records results 0 (initial_world 0) =
   (mkW COld 0 [mkEv 20 0 0 1; mkEv 21 0 0 1; mkEv 22 0 0 1; mkEv 23 0 0 1; mkEv 24 0 0 1;
@@ -378,3 +448,45 @@ Example C20_ex_pipeline_conversion_fault :
                mkEv 1 1 0 1; mkEv 2 1 0 1; mkEv 3 1 0 1; mkEv 4 1 0 1; mkEv 5 1 0 1], Err E_Key, 1,
    [mkE 0 0 true false false false]).
 Proof. split; vm_compute; reflexivity. Qed.
+
+(* the witness of C20-seed5: the last module of the last record is a results object without entries
+   (__len__ == 0, like a TTAResults of a record without TTA codons) whose to_json raises ValueError; it meets
+   the hypotheses of C20_failing_result_protects_file_whatever_its_truthiness, and the machine ends in that
+   error with the old file in place.  The same for an empty dict left over from a reused run (invalid type:
+   TypeError, logged) *)
+Example C20_ex_falsy_failing_result :
+  let records := [mkR 0 0 0 0 false; mkR 0 0 0 0 false] in
+  let bad := mkM 2 1 5 0 2 0 0 in
+  let results := [[mkM 2 0 11 0 0 0 0]; [mkM 2 0 12 0 0 0 0; bad]] in
+  let results' := [[mkM 2 0 11 0 0 0 0]; [mkM 1 0 0 0 5 0 0; mkM 2 0 12 0 0 0 0]] in
+  (nth_error records 1 = Some (mkR 0 0 0 0 false) /\ nth_error results 1 = Some [mkM 2 0 12 0 0 0 0; bad] /\
+   In bad [mkM 2 0 12 0 0 0 0; bad] /\ ms_kind bad <> 0 /\ ms_fault bad <> 0) /\
+  (exists t, write_to_file records results 0 0 (initial_world 0) = (mkW COld 0 t, Err E_Value)) /\
+  (exists t, write_to_file records results' 0 0 (initial_world 0) = (mkW COld 1 t, Err E_Type)).
+Proof.
+  split; [repeat split; try reflexivity; try discriminate; right; left; reflexivity|].
+  split; eexists; vm_compute; reflexivity.
+Qed.
+
+(* falsy results that convert are written like any other: an empty TTA-like object returning a dict, an object
+   whose __bool__ says False returning None, one with __len__ == 0 returning {}; only the None in between is
+   skipped (keys 0, 1, 3) *)
+Example C20_ex_falsy_results_written :
+  let records := [mkR 0 0 0 0 false] in
+  let results := [[mkM 2 0 11 0 7 0 0; mkM 2 0 12 0 3 1 0; mkM 0 0 0 0 5 0 0; mkM 2 0 13 0 2 7 0]] in
+  exists t, write_to_file records results 0 0 (initial_world 0) =
+            (mkW (CNew [(false, [mkMJ 0 11 0 0; mkMJ 1 12 0 1; mkMJ 3 13 0 7])]) 0 t, Ok tt).
+Proof. eexists. vm_compute. reflexivity. Qed.
+
+(* truthiness: the plan of C20_ex_falsy_results_written with every value made truthy (or anything else) behaves
+   identically (an instance of C20_truthiness_irrelevant), whereas a value whose __bool__ raises KeyError makes
+   the conversion of its record fail before the first to_json of that record (four events only), file kept *)
+Example C20_ex_truthiness :
+  let records := [mkR 0 0 0 0 false] in
+  let results := [[mkM 2 0 11 0 7 0 0; mkM 2 0 12 0 3 1 0]] in
+  retruth (fun _ => 0) results = [[mkM 2 0 11 0 0 0 0; mkM 2 0 12 0 0 1 0]] /\
+  conversion_fails records [[mkM 2 0 11 0 0 0 0; mkM 2 0 12 0 3 0 4]] 0 = true /\
+  core_fails records [[mkM 2 0 11 0 0 0 0; mkM 2 0 12 0 3 0 4]] 0 = false /\
+  write_to_file records [[mkM 2 0 11 0 0 0 0; mkM 2 0 12 0 3 0 4]] 0 0 (initial_world 0) =
+  (mkW COld 0 [mkEv 1 0 0 1; mkEv 2 0 0 1; mkEv 3 0 0 1; mkEv 4 0 0 1], Err E_Key).
+Proof. repeat split; vm_compute; reflexivity. Qed.
